@@ -37,41 +37,55 @@ Fixpoint scan_frac (s : bytes) (n tz : nat) : nat * nat :=
 Definition I64MIN_Z : Z := (-9223372036854775808)%Z.
 Definition I64MAX_Z : Z := 9223372036854775807%Z.
 
-(* lyplg_type_parse_dec64(fraction_digits, value, value_len, &ret, &err); [nxt] = value[value_len] *)
-Definition dec64_parse (fd : nat) (v0 : bytes) (nxt : N) : res Z :=
-  let value := skip_space v0 in                               (* consume leading whitespaces *)
+(* lyplg_type_parse_dec64(fraction_digits, value, value_len, &ret, &err); [nxt] = value[value_len].
+   First half, up to the label decimal: the C variables (fraction, len, trailing_zeros) there.
+   [len1] is [len] after the optional sign. *)
+Definition dec64_scan (value : bytes) (nxt : N) (len1 : nat) : nat * nat * nat :=
   let vlen := length value in
   let vx := value ++ [nxt] in
+  (* while (len < value_len && isdigit(value[len])) ++len; *)
+  let len2 := (len1 + count_digits (skipn len1 value))%nat in
+  (* if ((len < value_len) && ((value[len] != '.') || !isdigit(value[len + 1]))) goto decimal; *)
+  if (len2 <? vlen)%nat && (negb (rd value len2 =? 46) || negb (is_digit (rd vx (len2 + 1))))
+  then (0%nat, len2, 0%nat)
+  else
+    (* fraction = len; ++len; the fraction loop; len = len - trailing_zeros; *)
+    let '(n, tz) := scan_frac (skipn (len2 + 1) value) 0 0 in
+    (len2, (len2 + 1 + n - tz)%nat, tz).
+
+(* second half, from the label decimal on *)
+Definition dec64_finish (fd : nat) (value : bytes) (fraction len tz : nat) : res Z :=
+  let vlen := length value in
+  (* if (fraction && (len - 1 - fraction > fraction_digits)) error *)
+  if negb (fraction =? 0)%nat && (fd <? len - 1 - fraction)%nat then Err E_FRAC
+  else
+    (* if (len + trailing_zeros < value_len) only white space may follow *)
+    let trailing_ok :=
+      if (len + tz <? vlen)%nat
+      then ((len + tz + count_space (skipn (len + tz) value)) =? vlen)%nat
+      else true in
+    if negb trailing_ok then Err E_VALID
+    else
+      (* valcopy: the digits without the decimal point, padded with zeros to fraction_digits *)
+      let valcopy :=
+        if negb (fraction =? 0)%nat
+        then firstn fraction value
+             ++ firstn (len - 1 - fraction) (skipn (fraction + 1) value)
+             ++ repeat 48 (fd - (len - 1 - fraction))
+        else firstn len value ++ repeat 48 fd in
+      plg_parse_int valcopy I64MIN_Z I64MAX_Z.
+
+Definition dec64_parse (fd : nat) (v0 : bytes) (nxt : N) : res Z :=
+  let value := skip_space v0 in                               (* consume leading whitespaces *)
   match value with
   | [] => Err E_EMPTY                                         (* !value_len *)
   | c0 :: _ =>
+      (* !isdigit(value[0]) && value[0] != '-' && value[0] != '+' *)
       if negb (is_digit c0) && negb (c0 =? 45) && negb (c0 =? 43) then Err E_VALID
       else
         let len1 := if (c0 =? 45) || (c0 =? 43) then 1%nat else 0%nat in
-        let len2 := (len1 + count_digits (skipn len1 value))%nat in
-        (* if ((len < value_len) && ((value[len] != '.') || !isdigit(value[len + 1]))) goto decimal; *)
-        let '(fraction, len, tz) :=
-          if (len2 <? vlen)%nat && (negb (rd value len2 =? 46) || negb (is_digit (rd vx (len2 + 1))))
-          then (0%nat, len2, 0%nat)
-          else
-            let '(n, tz) := scan_frac (skipn (len2 + 1) value) 0 0 in
-            (len2, (len2 + 1 + n - tz)%nat, tz) in
-        (* decimal: *)
-        if negb (fraction =? 0)%nat && (fd <? len - 1 - fraction)%nat then Err E_FRAC
-        else
-          let trailing_ok :=
-            if (len + tz <? vlen)%nat
-            then ((len + tz + count_space (skipn (len + tz) value)) =? vlen)%nat
-            else true in
-          if negb trailing_ok then Err E_VALID
-          else
-            let valcopy :=
-              if negb (fraction =? 0)%nat
-              then firstn fraction value
-                   ++ firstn (len - 1 - fraction) (skipn (fraction + 1) value)
-                   ++ repeat 48 (fd - (len - 1 - fraction))
-              else firstn len value ++ repeat 48 fd in
-            plg_parse_int valcopy I64MIN_Z I64MAX_Z
+        let '(fraction, len, tz) := dec64_scan value nxt len1 in
+        dec64_finish fd value fraction len tz
   end.
 
 (* lyplg_type_store_decimal64 for a text value: parse, then the range on the scaled integer *)
@@ -113,3 +127,53 @@ Definition dec64_canon (fd : nat) (n : Z) : bytes :=
 (* lyplg_type_compare_decimal64 / lyplg_type_sort_decimal64: on the stored int64 *)
 Definition dec64_compare (a b : Z) : bool := (a =? b)%Z.
 Definition dec64_sort (a b : Z) : comparison := (a ?= b)%Z.
+
+(* ---------- Spec ----------
+   RFC 7950 9.3.1: the lexical representation of a decimal64 value is an optional sign, a sequence of
+   decimal digits, optionally followed by a period and a sequence of decimal digits. 9.3 value space:
+   the numbers  i x 10^-n  with i an int64 and n = fraction-digits. *)
+Inductive frac_part : bytes -> bytes -> Prop :=          (* text of the optional part, its digits *)
+| FracNone : frac_part [] []
+| FracSome fp : fp <> [] -> all_digit fp -> frac_part (46 :: fp) fp.
+
+Definition sgn (sg : bytes) : Z := if beq_bytes sg [45] then (-1)%Z else 1%Z.
+
+(* (the rational written as  sg ip . fp) * 10^fd = n, multiplied through by 10^|fp| so that it is an
+   equation between integers:   +-(ip fp read as one number) * 10^fd  =  n * 10^|fp|  *)
+Definition dec64_denotes (fd : nat) (sg ip fp : bytes) (n : Z) : Prop :=
+  (sgn sg * Z.of_N (dec_to_N (ip ++ fp)) * 10 ^ Z.of_nat fd = n * 10 ^ Z.of_nat (length fp))%Z.
+
+Inductive rfc_dec64_lex (fd : nat) : bytes -> Z -> Prop :=
+| RfcDec sg ip ft fp n :
+    is_sign sg -> ip <> [] -> all_digit ip -> frac_part ft fp -> dec64_denotes fd sg ip fp n ->
+    rfc_dec64_lex fd (sg ++ ip ++ ft) n.
+
+(* as coded: the digits before the period may be missing when there is a sign (defect) *)
+Inductive ly_dec64_core (fd : nat) : bytes -> Z -> Prop :=
+| LyDecCore sg ip ft fp n :
+    is_sign sg -> (ip <> [] \/ sg <> []) -> all_digit ip -> frac_part ft fp -> dec64_denotes fd sg ip fp n ->
+    ly_dec64_core fd (sg ++ ip ++ ft) n.
+
+(* with libyang's white-space tolerance stated explicitly *)
+Inductive ws_around (P : bytes -> Z -> Prop) : bytes -> Z -> Prop :=
+| WsAround ws1 core ws2 n : all_space ws1 -> all_space ws2 -> P core n -> ws_around P (ws1 ++ core ++ ws2) n.
+
+Definition ly_dec64_lex (fd : nat) : bytes -> Z -> Prop := ws_around (ly_dec64_core fd).
+Definition rfc_ws_dec64_lex (fd : nat) : bytes -> Z -> Prop := ws_around (rfc_dec64_lex fd).
+
+(* the defect inputs: after the leading white space, a sign that is not followed by a digit *)
+Definition dec64_sign_no_digit (s : bytes) : bool :=
+  match skip_space s with
+  | c :: r => ((c =? 45) || (c =? 43)) && negb (is_digit (hd 0 r))
+  | [] => false
+  end.
+
+(* RFC 7950 9.3.2 canonical form: no plus sign, the decimal point is required, leading and trailing
+   zeros are prohibited except that there must be at least one digit before and after the point;
+   zero is 0.0 *)
+Definition rfc_dec64_canonical (c : bytes) : Prop :=
+  exists sg ip fp,
+    c = sg ++ ip ++ 46 :: fp /\ (sg = [] \/ sg = [45]) /\
+    all_digit ip /\ (ip = [48] \/ exists d r, ip = d :: r /\ d <> 48) /\
+    all_digit fp /\ (fp = [48] \/ exists p d, fp = p ++ [d] /\ d <> 48) /\
+    (sg = [45] -> ~ (ip = [48] /\ fp = [48])).
